@@ -546,33 +546,33 @@ def check_C17(tier):
     reported = set()
     real_classes = set()
     total = 0
-    for owner in threadcheck.OWNERS:
+    for owner, raises in [(o_, False) for o_ in threadcheck.OWNERS] + [('subbuild', True), ('build_file', True)]:
         for m in threadcheck.METHODS:
-            # the sequential fence: a call that starts after the owner has returned
-            o, _ = threadcheck.run_fence(owner, m, None, after=True)
+            # the sequential fence: a call that starts after the owner has returned (or raised)
+            o, _ = threadcheck.run_fence(owner, m, None, after=True, owner_raises=raises)
             pr = threadcheck.judge_fence(owner, m, o)
             if o['straggler'] is None or o['straggler'][:2] != ['RuntimeError', 'finished']:
                 pr.append({'what': 'a call after the close did not raise RuntimeError', 'res': o['straggler']})
             if pr:
-                rep.violation('fence_seq_%s_%s' % (owner, m), {'property': 'C17', 'kind': 'failing-input', 'owner': owner, 'method': m, 'problems': pr},
+                rep.violation('fence_seq_%s_%s_%s' % (owner, raises, m), {'property': 'C17', 'kind': 'failing-input', 'owner': owner, 'owner_raises': raises, 'method': m, 'problems': pr},
                               note='%s builder, %s after the close: %s' % (owner, m, pr[0]['what']))
             n = 0
-            for dev, o, s in threadcheck.sched.explore(lambda d: threadcheck.run_fence(owner, m, d), budget(tier, 2, 3), budget(tier, 150, 3000)):
+            for dev, o, s in threadcheck.sched.explore(lambda d: threadcheck.run_fence(owner, m, d, owner_raises=raises), budget(tier, 2, 3), budget(tier, 150, 3000)):
                 n += 1
                 real_classes.add(threadcheck.classify_p3(owner, m, o))
                 pr = threadcheck.judge_fence(owner, m, o)
                 if not pr:
                     continue
-                f = {'owner': owner, 'method': m, 'deviations': {str(k): v for k, v in dev.items()}, 'straggler': o['straggler'], 'problems': pr}
+                f = {'owner': owner, 'owner_raises': raises, 'method': m, 'deviations': {str(k): v for k, v in dev.items()}, 'straggler': o['straggler'], 'problems': pr}
                 known = core.match_known('C17', None, [f])
                 if known:
                     if known not in reported:
                         reported.add(known)
                         rep.known.append('%s (e.g. %s builder, straggler %s, deviations %s)' % (known, owner, m, f['deviations']))
                     rep.count('known_finding_hits')
-                elif (owner, m) not in reported:
-                    reported.add((owner, m))
-                    rep.violation('fence_%s_%s' % (owner, m), dict(f, property='C17', kind='failing-schedule'),
+                elif (owner, raises, m) not in reported:
+                    reported.add((owner, raises, m))
+                    rep.violation('fence_%s_%s_%s' % (owner, raises, m), dict(f, property='C17', kind='failing-schedule'),
                                   note='%s builder, straggler %s: %s' % (owner, m, pr[0]['what']))
             total += n
             rep.count('evaluations', n + 1)
